@@ -6,7 +6,7 @@
           o and every k: xstep s XRestart and xstep s (XCrash k o) are Ok.
           REFUTED: [C10_restart_can_fail_refuted], [C10_clean_restart_can_fail_refuted].
           PARTIAL: [C10_startup_never_fails_partial] (guards: [op_nonempty] - exactly what the
-          witnesses violate -, [ph_adm], operations other than replayed headers, crash points
+          witnesses violate -, [ph_adm] / keys of a replayed header's next set, crash points
           other than the one between the committed-header write and the position write).
       (2) nothing committed is lost, the stored position does not regress, the voting height is
           at most one above what the uninterrupted operation reaches:
@@ -17,7 +17,7 @@
 From Coq Require Import List NArith.
 From GV Require Import Base.Ints Gen.Kernel Model.Mirror Proofs.MirrorAuth Proofs.MirrorChain Proofs.MirrorCert
   Proofs.MirrorTotal Proofs.MirrorResumeWit Proofs.MirrorResumeInv Proofs.MirrorResumeStart
-  Proofs.MirrorResumeOps Proofs.MirrorResumeOps4 Proofs.MirrorResume Proofs.MirrorResumeHeight Proofs.MirrorResumeEx.
+  Proofs.MirrorResumeOps Proofs.MirrorResumeOps4 Proofs.MirrorResumeOps5 Proofs.MirrorResume Proofs.MirrorResumeHeight Proofs.MirrorResumeEx.
 Import ListNotations.
 Local Open Scope N_scope.
 
@@ -79,16 +79,16 @@ Print Assumptions C10_invariants_after_every_xstep_partial.
 Theorem C10_startup_never_fails_partial : forall ih ivs s,
   1 <= ih -> vwf ivs -> reachable_g ih ivs s ->
   (exists s', xstep s XRestart = Ok (s', 0)) /\
-  (forall o k s1 r, step s o = Ok (s1, r) -> wf_op o r -> op_covered o -> clean_cut s o k ->
+  (forall o k s1 r, step s o = Ok (s1, r) -> wf_op o r -> clean_cut s o k ->
      exists s', xstep s (XCrash k o) = Ok (s', r)).
 Proof. exact startup_never_fails_partial. Qed.
 Print Assumptions C10_startup_never_fails_partial.
 
-(** every clean write prefix of every admissible covered operation leaves stores satisfying [SI]
+(** every clean write prefix of every admissible operation leaves stores satisfying [SI]
     that lie between the stores before and the stores after the uninterrupted operation *)
 Theorem C10_crash_stores_satisfy_store_invariant_partial : forall ih ivs s o k s1 r,
   1 <= ih -> vwf ivs -> reachable_g ih ivs s ->
-  step s o = Ok (s1, r) -> wf_op o r -> op_covered o -> clean_cut s o k ->
+  step s o = Ok (s1, r) -> wf_op o r -> clean_cut s o k ->
   let st := fold_left apply_wr (firstn k (skipn (List.length (st_log s)) (st_log s1))) (stores_of s) in
   SI ih ivs st /\ sadv (stores_of s) st /\ sadv st (stores_of s1).
 Proof. exact crash_stores_between. Qed.
@@ -111,7 +111,7 @@ Print Assumptions C10_no_regression_partial.
 (** (2) partial, how far AHEAD: at most one height above the uninterrupted operation *)
 Theorem C10_crash_height_bound_partial : forall ih ivs s o k s1 r s',
   1 <= ih -> vwf ivs -> reachable_g ih ivs s ->
-  step s o = Ok (s1, r) -> wf_op o r -> op_covered o -> clean_cut s o k ->
+  step s o = Ok (s1, r) -> wf_op o r -> clean_cut s o k ->
   xstep s (XCrash k o) = Ok (s', r) ->
   v_h (k_vot s) <= v_h (k_vot s') /\ v_h (k_vot s') <= v_h (k_vot s1) + 1.
 Proof. exact crash_height_bound. Qed.
